@@ -305,7 +305,7 @@ def dynamic_c12(o, tier, facts):
     b = rec_binary(o)
     if b is None:
         return
-    plans = [("dir", 12000 if tier == "quick" else 90000), ("mem", 7000 if tier == "quick" else 60000)]
+    plans = [("dir", 12000 if tier == "quick" else 45000), ("mem", 7000 if tier == "quick" else 25000)]
     seeds = [o.seed] if tier == "quick" else [o.seed, o.seed + 1, o.seed + 2]
     observed, totals = set(), {"requests": 0, "locks": 0, "instance_edges": 0, "lines": 0, "histories": 0}
     stalled = False
@@ -373,7 +373,7 @@ def dynamic_c13(o, tier):
     b = race_binary(o)
     if b is None:
         return
-    plans = [("dir", 12000 if tier == "quick" else 100000), ("mem", 7000 if tier == "quick" else 60000)]
+    plans = [("dir", 12000 if tier == "quick" else 45000), ("mem", 7000 if tier == "quick" else 25000)]
     seeds = [o.seed] if tier == "quick" else [o.seed, o.seed + 1, o.seed + 2]
     totals = {"requests": 0, "lines": 0, "race_reports": 0}
     for store, budget in plans:
